@@ -153,6 +153,12 @@ FRAMES = [
      "ptr::write(footer_ptr,ChunkFooter{data,layout,prev:Cell::new(prev),ptr,allocated_bytes,},);Some(NonNull::new_unchecked(footer_ptr))"),
     ("src/lib.rs", "new_chunk", "new_chunk_asks_allocator", "letdata=alloc(layout);letdata=NonNull::new(data)?;"),
     ("src/lib.rs", "reset", "reset_empty_is_noop", "ifself.current_chunk_footer.get().as_ref().is_empty(){return;}"),
+    # giving memory back: the chunk-list walk, what Drop and the sentinel test are
+    ("src/lib.rs", "dealloc_chunk_list", "chunk_list_walk",
+     "{while!footer.as_ref().is_empty(){letf=footer;footer=f.as_ref().prev.get();dealloc(f.as_ref().data.as_ptr(),f.as_ref().layout);}}"),
+    ("src/lib.rs", "drop", "drop_frees_whole_list", "{unsafe{dealloc_chunk_list(self.current_chunk_footer.get());}}"),
+    ("src/lib.rs", "is_empty", "sentinel_test_by_address", "{ptr::eq(self,EMPTY_CHUNK.get().as_ptr())}"),
+    ("src/lib.rs", "set_ptr", "set_ptr_spares_sentinel", "{if!self.is_empty(){self.ptr.set(ptr);"),
     # *_try_with: the slot is reserved through (try_)alloc_with, the error value is read out once
     ("src/lib.rs", "alloc_try_with", "atw_reserves_then_matches",
      "letmutinner_result_ptr=NonNull::from(self.alloc_with(f));matchunsafe{inner_result_ptr.as_mut()}{Ok(t)=>Ok(unsafe{&mut*(tas*mut_)}),Err(e)=>unsafe{ifself.is_last_allocation(inner_result_ptr.cast()){"),
